@@ -9,14 +9,14 @@ from concurrent.futures import ProcessPoolExecutor
 import numpy as np
 
 from . import stages
-from .common import sha
+from .common import NonTermination, sha, time_limit
 
 INVS = ["GreedyCharacterisation", "GuidedIsMembership", "Terminates", "NoDuplicates", "Supported", "NothingLeft", "Spacing",
         "ThresholdMonotone", "EmptyInnerScoresZero"]
 
 
 def consts(mode, **kw):
-    c = dict(N=6, M=1, L=6, K=3 if mode == "contains" else 2, V=2, Thr2s={1, 3}, Mode=mode, RemoveTest="code",
+    c = dict(N=6, M=1, L=6, K=3 if mode == "contains" else 2, V=2, Thr2s={0, 1, 2, 3}, Mode=mode, RemoveTest="code", Exceed="strict",
              Emit=False, NSlices=1, Slice=0)
     c.update(kw)
     return c
@@ -25,13 +25,13 @@ def consts(mode, **kw):
 def stage_a_configs(mode, tier):
     if mode == "contains":
         q = [("N5-M1-K3", consts(mode, N=5, L=5)), ("N6-M2-K3", consts(mode, N=6, M=2, L=6)),
-             ("N6-M1-K2", consts(mode, N=6, K=2, V=3, Thr2s={1, 3, 5}))]
+             ("N6-M1-K2", consts(mode, N=6, K=2, V=3, Thr2s={1, 2, 4, 5}))]
         t = [("N6-M1-K3", consts(mode)), ("N7-M2-K3", consts(mode, N=7, M=2, L=7)),
-             ("N7-M1-K2", consts(mode, N=7, L=5, K=2, V=3, Thr2s={1, 3, 5})), ("N8-M3-K3", consts(mode, N=8, M=3, L=8))]
+             ("N7-M1-K2", consts(mode, N=7, L=5, K=2, V=3, Thr2s={1, 2, 4, 5})), ("N8-M3-K3", consts(mode, N=8, M=3, L=8))]
     else:
-        q = [("N6-M1-K2", consts(mode)), ("N5-M1-K2-V3", consts(mode, N=5, L=5, V=3, Thr2s={1, 3, 5})),
+        q = [("N6-M1-K2", consts(mode)), ("N5-M1-K2-V3", consts(mode, N=5, L=5, V=3, Thr2s={1, 2, 4, 5})),
              ("N7-M2-K2", consts(mode, N=7, M=2, L=7))]
-        t = [("N6-M1-K2", consts(mode)), ("N7-M2-K2", consts(mode, N=7, M=2, L=7, V=3, Thr2s={1, 3, 5})),
+        t = [("N6-M1-K2", consts(mode)), ("N7-M2-K2", consts(mode, N=7, M=2, L=7, V=3, Thr2s={1, 2, 4, 5})),
              ("N5-M1-K3", consts(mode, N=5, L=5, K=3)), ("N7-M1-K2-L5", consts(mode, N=7, L=5))]
     return q if tier == "quick" else t
 
@@ -49,6 +49,7 @@ def replay_greedy(case):
     thr = case["thr2"] / 2.0
     fails = []
     try:
+      with time_limit(10):
         if mode == "contains":
             picks = np.array(case["picks"], dtype=np.int64)
             got = tuple(int(c) for c in greedy_changepoint_selection(scores, picks, starts, ends, thr))
@@ -62,6 +63,8 @@ def replay_greedy(case):
             ok = got in admitted and list(got) == sorted(got)
         if not ok:
             fails.append(("not_a_greedy_result", {"got": [list(g) if isinstance(g, tuple) else g for g in got]}))
+    except NonTermination as e:
+        fails.append(("does_not_terminate", {"error": str(e)}))
     except Exception as e:
         fails.append(("raises", {"error": repr(e)[:200]}))
     nontrivial = len(case["admitted"]) > 1 or any(len(a) > 0 for a in case["admitted"])
@@ -69,7 +72,16 @@ def replay_greedy(case):
 
 
 def _replay_chunk(cases):
-    return [replay_greedy(c) for c in cases]
+    """None = not replayed: after five divergent cases in a chunk the rest is left out (the check fails anyway)."""
+    out, diverged = [], 0
+    for c in cases:
+        if diverged >= 5:
+            out.append(None)
+            continue
+        r = replay_greedy(c)
+        diverged += any(cl == "does_not_terminate" for cl, _ in r[0])
+        out.append(r)
+    return out
 
 
 # ------------------------------------------------------------------------------ stage C
@@ -109,6 +121,7 @@ def record(args):
     from .zoo import lattice_data
 
     mode, seed, count = args
+    diverged = 0
     rng = np.random.default_rng(seed)
     out = []
     for i in range(count):
@@ -127,10 +140,11 @@ def record(args):
                 tab2 = {k: split_columns(v, p, rng) for k, v in tab.items()}
                 io = bool(rng.integers(0, 2))   # the user-defined score may return an int64 array
                 mk = (lambda: TableChangeScore(tab2, p=p, int_out=io)) if mode == "contains" else (lambda: TableLocalScore(tab2, p=p, int_out=io))
-                h = float(rng.integers(0, max(list(tab.values()) + [0]) + 1)) + 0.5
+                # half the thresholds are integers: they tie with table scores ("exceeds" is strict)
+                h = float(rng.integers(0, max(list(tab.values()) + [0]) + 1)) + (0.5 if rng.integers(0, 2) else 0.0)
                 X = np.zeros((n, p))
                 value = lambda cut: 2 * tab[cut]
-                thr_of = lambda t: int(round(2 * t))
+                thr_of = lambda t: int(math.floor(2 * t))   # scores are multiples of 1/2: s > t  <=>  2s > floor(2t)
                 tol = 0
                 scales = [h / default, (h + 1.0) / default]
                 name = "table"
@@ -148,14 +162,19 @@ def record(args):
                 if ms == 2:
                     X = X + rng.integers(-2, 3, size=(n, p)) / 8.0
                 s0 = float(rng.choice([0.1, 0.5, 1.0]))
-                scales = [s0, 2 * s0]
+                # a third of the runs tune the threshold: the quantile of the training scores often IS one of them
+                scales = [None, None] if rng.integers(0, 3) == 0 else [s0, 2 * s0]
+                level = float(rng.choice([0.05, 0.2, 0.25, 0.5]))
             dets = []
             # integer-valued data go to the detector as int64 half of the time; the per-split reference values are
             # always computed from the float copy
             Xin = X.astype(np.int64) if (not r1) and np.all(X == np.round(X)) and rng.integers(0, 2) else X
             for sc_ in scales:
+              with time_limit(20):
+                if sc_ is None and dets:   # the higher threshold of a tuned pair
+                    sc_ = 1.5 * float(dets[0][0].threshold_) / default + 0.01
                 det = Det(**{kw: mk()}, threshold_scale=sc_, min_segment_length=m, max_interval_length=L,
-                          growth_factor=g).fit(Xin)
+                          growth_factor=g, **({} if r1 else {"level": level})).fit(Xin)
                 y = det.predict(Xin)
                 dets.append((det, y))
             det, y = dets[0]
@@ -207,7 +226,12 @@ def record(args):
                 splits = [[[pick, q(v)] for pick, v in sp] for sp in splits]
                 thr = q(det.threshold_)
                 tol = 64
+            # the greedy selection is decided by the detector on ITS OWN reported scores and threshold_ (public, exact):
+            # dense ranks preserve every comparison, including equality, without tolerance
+            order = {v: k for k, v in enumerate(sorted({float(r[3]) for r in rows} | {float(det.threshold_)}))}
             out.append({"id": rid, "rec": "run", "mode": mode, "score": name, "n": n, "p": p, "m": m, "L": L, "g": g,
+                        "rk": [order[float(r[3])] for r in rows], "rkthr": order[float(det.threshold_)],
+                        "tie": bool(any(float(r[3]) == float(det.threshold_) for r in rows)),
                         "thr": thr, "tol": tol, "unit": unit, "table": table, "splits": splits, "out": outl,
                         "X": None if r1 else X.tolist()})
             out.append({"id": rid + "p", "rec": "pair", "low": outl, "high": out_hi, "n": n, "m": m, "L": L, "g": g,
@@ -220,6 +244,12 @@ def record(args):
                             "score": "make_seeded_intervals", "starts": [int(x) for x in ss], "ends": [int(x) for x in ee]})
         except RuntimeError:
             continue
+        except NonTermination as e:
+            out.append({"id": rid, "error": "does not terminate: " + str(e), "n": n, "m": m, "L": L, "g": g,
+                        "score": "table" if r1 else "builtin", "mode": mode})
+            diverged += 1
+            if diverged >= 3:
+                break   # the check fails anyway; do not spend 20 s on every further case
         except Exception as e:
             out.append({"id": rid, "error": repr(e)[:300], "n": n, "m": m, "L": L, "g": g, "score": "table" if r1 else "builtin",
                         "mode": mode})
@@ -228,13 +258,13 @@ def record(args):
 
 def run_check(chk, mode, tier, wd, detector):
     chk.rule = ("stage A/B: every set of up to K admissible candidate intervals x per-candidate (score, pick) x "
-                "half-integer thresholds within the constants, replayed through the greedy selection function; stage C: "
+                "thresholds in steps of 1/2 (ties with scores included) within the constants, replayed through the greedy selection function; stage C: "
                 f"{detector} with random integer score tables over ALL cuts (ties frequent) and built-in scores on "
                 "lattice data over the grid of (n, min_segment_length, max_interval_length, growth_factor) incl. the "
-                "boundary max_interval_length = 2*min_segment_length, plus pairs of thresholds.  Non-trivial = at "
+                "boundary max_interval_length = 2*min_segment_length, plus pairs of thresholds and tuned thresholds (which often coincide with a training score).  Non-trivial = at "
                 "least one detection or several admitted tie resolutions; distinct by hash of the case.")
-    chk.assumptions = ["TLC/SANY and the Json module", "R3: deviations below tol*unit are rounding; runs with a score "
-                       "within tol of the threshold are not judged"]
+    chk.assumptions = ["TLC/SANY and the Json module", "R3: deviations of score VALUES below tol*unit are rounding; the selection itself "
+                       "is judged exactly, on dense ranks of the detector's own reported scores and threshold_"]
     cases = []
     if mode == "contains":  # growth: shift structure of make_seeded_intervals (not a listed property)
         stages.model_check(chk, "SeededIntervals", dict(NMax=6 if tier == "quick" else 8, StepMode="any"),
@@ -252,7 +282,11 @@ def run_check(chk, mode, tier, wd, detector):
     with ProcessPoolExecutor(max_workers=stages.NCPU) as ex:
         chunks = [items[i::64] for i in range(64) if items[i::64]]
         for chunk, ress in zip(chunks, ex.map(_replay_chunk, [[c for _, c in ch] for ch in chunks])):
-            for (key, case), (fails, nontrivial) in zip(chunk, ress):
+            for (key, case), res in zip(chunk, ress):
+                if res is None:
+                    chk.extra["not_replayed_after_divergence"] = chk.extra.get("not_replayed_after_divergence", 0) + 1
+                    continue
+                fails, nontrivial = res
                 chk.case({"stage": "B", **case}, nontrivial=nontrivial, key=key)
                 chk.traces += 1
                 for clause, obs in fails:
